@@ -143,8 +143,11 @@ def _post_adc(engine, st, ctx, out):
         cl.append(("a callback added to a done future is called with the future itself, only once it is done, outside the lock", "PC",
                    z3.And(ev.callee == ctx["fn"].t, z3.BoolVal(len(ev.args) == 1 and not ev.held), ev.args[0] == ctx["self"].t, st.done(sid)), ["C02", "C04"]))
     if apps:
-        cl.append(("a stored callback is appended to this future's own list, under its lock", "PC",
-                   z3.And(apps[0].args[0] == ctx["fn"].t, z3.BoolVal(any(h[3] == "_me_lock" for h in apps[0].held))), ["C02"]))
+        i_app = st.trace.index(apps[0])
+        reads = [i for i, e in enumerate(st.trace) if e.kind == "state-read" and i < i_app and any(h[3] == "_me_lock" for h in e.held)]
+        cl.append(("a stored callback is appended to this future's own list under its lock, after checking `not done` under the SAME lock "
+                   "(otherwise completion could run and drop the list in between: the callback would never fire)", "PC",
+                   z3.And(apps[0].args[0] == ctx["fn"].t, z3.BoolVal(any(h[3] == "_me_lock" for h in apps[0].held) and bool(reads))), ["C02", "C03", "C01"]))
     return cl
 
 
@@ -232,7 +235,7 @@ def _post_set(kind, tolerant):
 
 
 for c in FUTURE_CLASSES:
-    UNITS.append(Unit("_Future.add_done_callback[%s]" % c, "common._Future.add_done_callback", ["C02", "C04"],
+    UNITS.append(Unit("_Future.add_done_callback[%s]" % c, "common._Future.add_done_callback", ["C02", "C04", "C03", "C01"],
                       _setup_adc(c), _post_adc, cfg=_cfg_cb, self_cls=c))
 UNITS.append(Unit("_Future._me_invoke_callbacks", "common._Future._me_invoke_callbacks", ["C02", "C12", "C18", "C04"],
                   _setup_invoke("MapFuture"), _post_invoke, cfg=_cfg_invoke, self_cls="MapFuture"))
